@@ -73,6 +73,7 @@ type txDamage struct {
 }
 
 type epResult struct {
+	signalled          bool
 	sendErr, recvErr   error
 	sendRet, recvRet   bool
 	sendAt, recvAt     time.Duration
@@ -346,6 +347,31 @@ func runEpisode(cfg epCfg) (ep *epResult) {
 					return nil
 				}
 			}
+			// every run starts with an empty flush registry (killed receivers of earlier
+			// runs in this worker process never unregistered their sidecars)
+			globalSidecarFlushRegistry.mu.Lock()
+			globalSidecarFlushRegistry.active = nil
+			globalSidecarFlushRegistry.mu.Unlock()
+			s.OnSignal = func(node string) {
+				// the receiver's interrupt handler (snapshotReceiver.watchInterrupt):
+				// FlushAllFlushers(), then os.Exit(1). The registry is walked in path order
+				// here (the product ranges over a map keyed by pointers, whose order is not
+				// a function of the run); each Sidecar.Flush is the real one.
+				ep.signalled = true
+				verifsim.Go(node+">sigint", func() {
+					globalSidecarFlushRegistry.mu.Lock()
+					var list []*Sidecar
+					for sc := range globalSidecarFlushRegistry.active {
+						list = append(list, sc)
+					}
+					globalSidecarFlushRegistry.mu.Unlock()
+					sort.Slice(list, func(i, j int) bool { return list[i].Path < list[j].Path })
+					for _, sc := range list {
+						_ = sc.Flush()
+					}
+					verifsim.Exit(1)
+				})
+			}
 			s.OnCrash = func(node string) {
 				ep.crashFired = true
 				if s.Crash != nil {
@@ -447,6 +473,13 @@ func runEpisode(cfg epCfg) (ep *epResult) {
 			ep.deliveries = net.Deliveries
 			ep.windowBlk = net.WindowBlk
 			ep.crashSeen = s.CrashSeen
+			// The episode is over: both processes are gone (the receiver's shell exits
+			// right after the engine returns). Whatever goroutines they left behind run
+			// unscheduled during the drain below; their file operations must not reach
+			// the disk any more, or the state a later run of the history starts from
+			// would depend on real-time scheduling.
+			s.Kill("R")
+			s.Kill("S")
 			s.Stop()
 			verifsim.Watch(nil)
 			cancelS()
@@ -1030,6 +1063,12 @@ func fillRes(res *verifsim.RunResult, ep *epResult) {
 	}
 	if ep.crashFired {
 		res.Counters["crash_fired"]++
+	}
+	if ep.signalled {
+		res.Counters["interrupt_signal_delivered"]++
+		if ep.crashFired {
+			res.Counters["interrupt_handler_exited_process"]++
+		}
 	}
 	if ep.sendRet && ep.sendErr == nil {
 		res.Counters["sender_success"]++
